@@ -1,15 +1,13 @@
-"""Per-property configuration of the driver."""
+"""Per-property configuration of the driver: one module py/propcfg/Cxx.py per claimed property, each defining CFG."""
+import importlib
+import os
+import sys
 
+_d = os.path.join(os.path.dirname(os.path.abspath(__file__)), "propcfg")
+sys.path.insert(0, _d)
 PROPS = {}
 NOT_YET = {}
-
-PROPS["C18"] = {
-    "check": "C18_Check",
-    "level_text": "Theorems in Coq for every step list of every length and every begin/commit/rollback fault vector (finished exactly once, commit iff all steps ok, no step after a failure, result, begin failure, empty list); the model is tied to the code by running ALL outcome vectors up to 4 steps (5 in the thorough tier) through the real gormx.Transact on a recording database/sql driver and comparing event list and result inside Coq. Proof is the right level: the quantifier is over unboundedly many step lists, the code is a 30-line pure control skeleton.",
-    "level_note": "Trusted: Coq kernel + vm_compute; hand model of Transact (C18.v) tied by exhaustive small-scope correspondence; gorm/database-sql plumbing observed at a fake driver; defer/recover semantics of Go. No axioms.",
-    "props": ["C18_Props"],
-    "rule": "every outcome vector (ok/fail/panic per step, 0..4 steps; begin/commit/rollback ok or failing) is run once through gormx.Transact on a fake database/sql driver; a case is non-trivial when it has at least one step; distinct = distinct (cfg, observed trace)",
-    "trusted": ["fake database/sql driver recording Begin/Commit/Rollback/Exec; gorm + mysql dialector plumbing from gorm.DB.Begin down to driver.Conn (observed, not modelled)"],
-    "assumptions": ["gorm's Begin/Commit/Rollback reach the driver exactly once per call (observed at the fake driver on every run)",
-                    "a panicking step is a Go panic recovered by Transact's deferred handler (runtime semantics of defer/recover)"],
-}
+for _f in sorted(os.listdir(_d)):
+    if _f.endswith(".py") and _f[0] == "C":
+        _m = importlib.import_module(_f[:-3])
+        PROPS[_f[:-3]] = _m.CFG
